@@ -29,7 +29,7 @@ def _timeouts(draw):
     return {str(t): draw(_st.sampled_from([0.13, 0.27, 0.41, 0.77])) for t in range(4) if draw(_st.booleans())}
 
 
-P = Profile(timeouts=_timeouts(), raises=0.45, raise_kinds=['VE', 'custom', 'KE', 'RT', 'TO', 'TO', 'ITO', 'ITO', 'CE', 'chain', 'chain', 'falsy'], rets=['idx', 'idx', 'none', 'str', 'excobj'], sync=0.35, fwd=0.3, par=0.15, maxdepth=[1, 2, 3], wild=0.2, actor_ops=['disp', 'disp', 'dispany', 'sleep', 'await', 'acc', 'acc', 'yield'], max_actor_ops=6)
+P = Profile(timeouts=_timeouts(), raises=0.45, raise_kinds=['VE', 'custom', 'KE', 'RT', 'TO', 'TO', 'ITO', 'ITO', 'CE', 'chain', 'chain', 'falsy'], rets=['idx', 'idx', 'none', 'str', 'excobj', 'excobj_to'], sync=0.35, fwd=0.3, par=0.15, maxdepth=[1, 2, 3], wild=0.2, actor_ops=['disp', 'disp', 'dispany', 'sleep', 'await', 'acc', 'acc', 'yield'], max_actor_ops=6)
 
 
 def budget(tier):
@@ -89,10 +89,10 @@ def classes(F):
             if p is not None and p[0] != 'A':
                 cl.append('raiser-in-child')
                 break
-    if any(h.get('ret') == 'excobj' for h in F.sc['handlers']):
+    if any(h.get('ret') in ('excobj', 'excobj_to') for h in F.sc['handlers']):
         cl.append('returns-exception-object')
         rt = F.sc.get('rtypes') or {}
-        if any(str(F.etype.get(e)) in rt and F.sc['handlers'][h].get('ret') == 'excobj' for (_b, e, h) in F.enters):
+        if any(str(F.etype.get(e)) in rt and F.sc['handlers'][h].get('ret') in ('excobj', 'excobj_to') for (_b, e, h) in F.enters):
             cl.append('exception-object-returned-on-typed-event')
     if any(op[0] == 'raise' and op[1] == 'TO' for h in F.sc['handlers'] for op in h['prog']):
         cl.append('raises-own-TimeoutError')
